@@ -36,12 +36,12 @@ def run(ctx, replay=None):
             sc.run_step_part(ctx, f'local{h}x{w}k{k}_{cname}', sc.local_jobs(h, w, k, helds=helds),
                              dict(comps=steps.COMPOSITIONS[cname], space=steps.family_space(h, w), via='gridworld'),
                              PREFIX)
-    sc.random_big_part(ctx, PREFIX, 300 if ctx.quick else 20000, seed_offset=1)
+    sc.random_big_part(ctx, PREFIX, 300 if ctx.quick else 6000, seed_offset=1)
     sc.live_chain_part(ctx, PREFIX, 150 if ctx.quick else 1500, seed_offset=1)
     sc.mc_reach(ctx, ['InvAgentOK', 'InvClosure'])
     sc.apalache_lemmas(ctx, ['IndInv', 'KinematicsLemma'], modules=('MC_GVSym_5x5',) if ctx.quick else ('MC_GVSym_5x5', 'MC_GVSym_7x9'))
     sc.history_part(ctx, PREFIX, ['gv_keydoor.5x5.yaml', 'gv_dynamic_obstacles.7x7.yaml', 'gv_teleport.7x7.yaml', 'gv_four_rooms.7x7.yaml', 'gv_crossing.7x7.yaml'] if ctx.quick else [os.path.basename(x) for x in __import__('harness.config', fromlist=['x']).shipped_files()],
-                    400 if ctx.quick else 5000, range(2) if ctx.quick else range(6))
+                    400 if ctx.quick else 2000, range(2) if ctx.quick else range(4))
     ctx.cov['exhaustive'] = True
 
 
